@@ -1,7 +1,9 @@
 (* Correspondence for C18: the harness drives statsd.NewReporter over a
    recording statsd.Statter and reports every client call; the model is run on
    the same calls.
-   params   = [Options.SampleRate as float32 bits; Options.HistogramBucketNamePrecision]
+   params   = [Options.SampleRate as float32 bits; Options.HistogramBucketNamePrecision;
+               error mode of the recording client (what it returns after recording a call:
+               not an input of the model - the calls made do not depend on it)]
    input    = oracle entries, then the calls on the reporter:
                 50 [p; bits] [r]   fmt.Sprintf("%.<p>f", x) = r     (observed from the Go runtime)
                 51 [d] [r]         time.Duration(d).String() = r
@@ -94,7 +96,7 @@ Fixpoint groups_ok (pending : list (Z * Z)) (want : Z) (l : list ev) : bool :=
 
 Definition check (c : gcase) : Z :=
   match gparams c with
-  | [rate; prec] =>
+  | rate :: prec :: _ =>
       let inp := ginput c in
       let t := filter is_oracle inp in
       let ops := map op_of_ev (filter (fun e => negb (is_meta e)) inp) in
